@@ -52,6 +52,7 @@ class PopenSpawn(SpawnBase):
 
         self.proc = subprocess.Popen(cmd, **kwargs)
         self.pid = self.proc.pid
+        self.terminated = False
         self.closed = False
         self._buf = self.string_type()
 
